@@ -57,9 +57,19 @@ func fixture() *csnet.Fixture {
 	return fx
 }
 
-// pattern: a byte pattern without long runs and without period 256 (a misaligned read of it gives varied garbage).
+// constFill selects the content of block parts. Part 2 (fixed timestamps, byte-deterministic images) uses a
+// pseudo-random pattern, so that a misaligned read sees varied garbage. Part 1 writes through the real
+// Write/WriteSync, which stamp time.Now(); record lengths then vary by a few bytes from run to run, and with them
+// the offset at which a record is split across two files. A constant fill makes what a reader sees at such a
+// split point independent of those few bytes, so that the counts of part 1 are the same in every run.
+var constFill bool
+
 func pattern(n int) []byte {
-	if v, ok := partBytes.Load(n); ok {
+	key := n
+	if constFill {
+		key = -n
+	}
+	if v, ok := partBytes.Load(key); ok {
 		return v.([]byte)
 	}
 	b := make([]byte, n)
@@ -67,8 +77,11 @@ func pattern(n int) []byte {
 	for i := range b {
 		x = x*1664525 + 1013904223
 		b[i] = byte(x >> 24)
+		if constFill {
+			b[i] = 0xab
+		}
 	}
-	partBytes.Store(n, b)
+	partBytes.Store(key, b)
 	return b
 }
 
@@ -106,7 +119,7 @@ func partMaxLen() int {
 
 // mkMsg builds the WAL payload for record kind k written at history position pos (markers carry height h).
 func mkMsg(k kind, pos int, h uint64) cs.WALMessage {
-	ck := fmt.Sprintf("%d/%d/%d", k, pos, h)
+	ck := fmt.Sprintf("%d/%d/%d/%v", k, pos, h, constFill)
 	if v, ok := msgCache.Load(ck); ok {
 		return v.(cs.WALMessage)
 	}
